@@ -211,6 +211,134 @@ def flush_guards(fn, env):
     return out, leafs
 
 
+def run_reservation(f, c, need):
+    """write_int(item) inside a loop that writes a *run* of items without a per-item space test: the run length R was taken
+    from the free space, `R = m_avail / C` (or `R = BUFFER_SIZE / C` straight after a flush), C at least the head an item can
+    need, the loop runs at most R times, and between the moment R was computed and the loop nothing else advances the cursor.
+    -> (verdict, text)"""
+    pos = {id(x): i for i, x in enumerate(ir.walk(f["body"]))}
+    chain = None
+    for n_, ps_ in ir.walk_with_parents(f["body"]):
+        if n_ is c:
+            chain = [p_ for p_ in ps_ if isinstance(p_, dict)]
+    if chain is None:
+        return None, "call site not found"
+    lps = [p_ for p_ in chain if p_.get("k") in ("For", "While", "Do")]
+    if not lps:
+        return None, "not inside a loop"
+    L = lps[-1]
+    O = lps[-2] if len(lps) > 1 else None
+    inside_L = set(id(x) for x in ir.walk(L))
+
+    def defs_of(ref):
+        out = []
+        for x in ir.walk(f["body"]):
+            if x.get("k") == "Decl":
+                out += [(x, v_["init"]) for v_ in x.get("vars", []) if v_.get("id") == ref.get("id") and v_.get("n") == ref.get("n") and v_.get("init") is not None]
+            elif x.get("k") == "Bin" and x.get("op") == "=" and path(x.get("lhs")) == path(ref):
+                out.append((x, x.get("rhs")))
+        return out
+
+    def div_form(e):
+        u = unwrap_all_casts(e)
+        if isinstance(u, dict) and u.get("k") == "Bin" and u.get("op") == "/":
+            cst = const_value(u.get("rhs"))
+            if isinstance(cst, int) and cst > 0:
+                if is_member(unwrap_all_casts(u["lhs"]), "m_avail"):
+                    return ("avail", cst)
+                ul = unwrap_all_casts(u["lhs"])
+                if isinstance(ul, dict) and ul.get("k") == "Ref" and ul.get("n") == "BUFFER_SIZE":
+                    return ("capacity", cst)
+        return None
+    # the run length behind the loop's bound
+    cands = []
+    for x in ir.walk(L.get("cond") or {}):
+        if x.get("k") == "Ref" and x.get("d") == "local":
+            cands.append(x)
+    R = None
+    for r_ in cands:
+        ds = defs_of(r_)
+        kinds = []
+        for node_, e_ in ds:
+            d_ = div_form(e_)
+            if d_ is not None:
+                kinds.append((node_, d_))
+                continue
+            ue = unwrap_all_casts(e_)
+            if isinstance(ue, dict) and ue.get("k") == "Call" and (callee_qn(ue) or "").split("<")[0] == "std::min":
+                inner = [a_ for a_ in ue.get("args", []) if isinstance(unwrap_all_casts(a_), dict) and unwrap_all_casts(a_).get("k") == "Ref" and unwrap_all_casts(a_).get("d") == "local"]
+                sub = [(n2, div_form(e2)) for a_ in inner for n2, e2 in defs_of(unwrap_all_casts(a_)) if div_form(e2) is not None]
+                if sub:
+                    kinds += sub
+                    continue
+            kinds.append((node_, None))
+        divs = [k_ for k_ in kinds if k_[1] is not None]
+        # stores that are not a division may only lower the bound (`if (run > left) run = left;`)
+        others = [k_ for k_ in kinds if k_[1] is None]
+        lowering = True
+        for node_, _ in others:
+            ok_ = False
+            for n2, ps2 in ir.walk_with_parents(f["body"]):
+                if n2 is node_:
+                    for p2 in reversed(ps2):
+                        if isinstance(p2, dict) and p2.get("k") == "If":
+                            cu = unwrap(p2.get("cond"))
+                            if isinstance(cu, dict) and cu.get("k") == "Bin" and cu.get("op") in (">", "<") and (
+                                    path(cu.get("lhs")) == path(r_) or path(cu.get("rhs")) == path(r_)):
+                                ok_ = True
+                            break
+            lowering = lowering and ok_
+        if divs and lowering:
+            R = (r_, divs)
+            break
+    if R is None:
+        return None, "write_int(%s) inside a loop whose trip count is not recognisably bounded by a run length computed as m_avail / C" % show(c["args"][0])
+    r_, divs = R
+    cmin = min(d_[1][1] for d_ in divs)
+    if cmin < need:
+        return False, "the run length %s reserves %d byte(s) per item, but write_int(%s) can need %d: near the end of the buffer an item is refused and " \
+            "silently dropped" % (show(r_), cmin, show(c["args"][0]), need)
+    def advance(x):
+        return x.get("k") in ("MCall", "Call") and (x.get("callee") or {}).get("cls") == ENC and (
+            callee_name(x) == "update_buffer" or (callee_name(x) or "").startswith("write_") and callee_name(x) != "write_int" or callee_name(x) == "write")
+    adv = [x for x in ir.walk(f["body"]) if advance(x) and id(x) not in inside_L]
+    pL = pos[id(L)]
+    for node_, (kind_, cst_) in divs:
+        pd = pos[id(node_)]
+        if pd < pL:
+            between = [x for x in adv if pd < pos[id(x)] < pL]
+        elif O is not None and any(x is node_ for x in ir.walk(O)):
+            inO = set(id(x) for x in ir.walk(O))
+            between = [x for x in adv if id(x) in inO and (pos[id(x)] > pd or pos[id(O)] < pos[id(x)] < pL)]
+        else:
+            return None, "the run length is computed after the loop it bounds"
+        if between:
+            b0 = between[0]
+            return False, "the run length %s is computed at line %s from the space free at that moment, but %s at line %s advances the cursor before the " \
+                "run is written: the last item(s) of the run find no room, write_int refuses and they are silently dropped" % (
+                    show(r_), node_.get("l"), show(b0)[:40], b0.get("l"))
+        if kind_ == "capacity":
+            # only right after a flush is the whole capacity free
+            okf = False
+            for b_ in ir.walk(f["body"]):
+                if b_.get("k") == "Block":
+                    sts_ = b_.get("s", [])
+                    for i_, s_ in enumerate(sts_):
+                        if unwrap(s_) is node_ or s_ is node_:
+                            pv = unwrap(sts_[i_ - 1]) if i_ > 0 else None
+                            okf = isinstance(pv, dict) and pv.get("k") == "MCall" and callee_qn(pv) == "CDNS::CdnsEncoder::flush_buffer"
+            if not okf:
+                return None, "a run length of BUFFER_SIZE / C that does not directly follow flush_buffer()"
+    # one item, one advance per iteration
+    wi = [x for x in ir.walk(L) if x.get("k") in ("MCall", "Call") and callee_qn(x) == "CDNS::CdnsEncoder::write_int"]
+    ub = [x for x in ir.walk(L) if x.get("k") == "MCall" and callee_qn(x) == "CDNS::CdnsEncoder::update_buffer"]
+    other = [x for x in ir.walk(L) if advance(x) and callee_name(x) != "update_buffer"]
+    if len(wi) != 1 or len(ub) != 1 or other:
+        return None, "a run loop that does not write exactly one item per iteration"
+    return True, "a run of at most %s items, %d byte(s) reserved for each (an item needs at most %d); nothing advances the cursor between the moment the run " \
+        "length is taken from m_avail and the run" % (show(r_), cmin, need)
+
+
 def dynamic_flush_guards(fn, facts):
     """[(preorder index of the if, callee fn, argument expr)] for `if (m_avail < H(x)) flush_buffer();` with H in the repo."""
     out = []
@@ -273,6 +401,9 @@ def head_fn_points(hfn, lo, hi):
     return sorted(p_ for p_ in pts if lo <= p_ <= hi)
 
 
+_ENUMS = {}
+
+
 def arg_max(e, fn):
     """Upper bound of the unsigned value passed to write_int, from source types."""
     u = unwrap(e)
@@ -288,6 +419,13 @@ def arg_max(e, fn):
         if t in SIGNED:
             return (1 << (TYPE_BITS[t] - 1)) - 1, "~(%s) of a negative %s" % (show(x), t)
         return U64, "~ of %s" % t
+    if isinstance(inner, dict) and (inner.get("k") == "Un" and inner.get("op") == "*" or inner.get("k") == "OpCall" and inner.get("op") == "*"):
+        # an element reached through a pointer or an iterator: the element type (an enumeration counts with its underlying type)
+        t = (inner.get("t") or "").replace("const ", "").replace("&", "").strip()
+        if t in _ENUMS and _ENUMS[t].get("underlying"):
+            t = _ENUMS[t]["underlying"]
+        if t in TYPE_BITS:
+            return ((1 << (TYPE_BITS[t] - 1)) - 1 if t in SIGNED else (1 << TYPE_BITS[t]) - 1), "%s of type %s" % (show(inner), t)
     if isinstance(inner, dict) and inner.get("k") in ("Ref", "Member", "MCall"):
         t = inner.get("t")
         if t in TYPE_BITS:
@@ -360,6 +498,8 @@ def check_public_writes(run, rename=None):
     if rename:
         run = _Renamed(run, rename)
     facts = run.facts
+    _ENUMS.clear()
+    _ENUMS.update(facts.enums or {})
     cb = facts.enum("CDNS::CborType", rule="R06.3")
     majors = tables.rfc()["cbor"]["majors"]
     ev = {e["n"]: e["v"] for e in cb["enumerators"]}
@@ -390,7 +530,8 @@ def check_public_writes(run, rename=None):
                 nsites += 1
                 mx, why = arg_max(c["args"][0], f)
                 need = need_bytes(mx)
-                ks = [k for (j, k, lp) in fg if j < i]
+                # (a threshold tested once in front of a loop covers the first item written in the loop, not the later ones)
+                ks = [k for (j, k, lp) in fg if j < i and [id(x_) for x_ in lp] == [id(x_) for x_ in loops]]
                 K = max(ks) if ks else 0
                 key = "%s:write_int(%s)" % (fname, show(c["args"][0]))
                 if K < need and dyn:
@@ -476,9 +617,8 @@ def check_public_writes(run, rename=None):
                     run.ob("R06.2", key, verdict, f, c["l"], msg)
                 elif K < need and loops and not nm.startswith("write_int") and any(
                         x_.get("k") == "Bin" and x_.get("op") in ("/", "/=") and "m_avail" in show(x_) for x_ in ir.walk(f["body"])):
-                    run.ob("R06.2", key, None, f, c["l"],
-                           "write_int(%s) inside a loop whose trip count is computed from m_avail by a division: whether that reserves the worst-case "
-                           "head for every item of a run is not decided by this rule" % show(c["args"][0]))
+                    v_, t_ = run_reservation(f, c, need)
+                    run.ob("R06.2", key, v_, f, c["l"], t_)
                 else:
                   run.ob("R06.2", key, K >= need, f, c["l"],
                        "flush threshold %d >= worst-case head %d (%s)" % (K, need, why) if K >= need else
